@@ -3,6 +3,272 @@
 
 package bfe_http
 
-import "verif/simrt"
+import (
+	"bytes"
+	"fmt"
+	"io"
+	"io/ioutil"
+	"sort"
+	"strings"
 
-func runC24(s *simrt.Sim) { s.Sample = "not built yet" }
+	"verif/simrt"
+	"verif/simrt/href"
+	"verif/simrt/simio"
+
+	"github.com/bfenetworks/bfe/bfe_bufio"
+)
+
+// one generated request: wire bytes + whether a strict RFC 7230 parser must reject it
+type c24req struct {
+	wire  []byte
+	shape string
+}
+
+func c24body(tp *simrt.Tape, max int) []byte {
+	n := tp.Draw(max+1, "body.len")
+	b := make([]byte, n)
+	for i := range b {
+		b[i] = byte('a' + (i*5+n)%26)
+	}
+	return b
+}
+
+func chunkedWire(tp *simrt.Tape, body []byte, trailer bool) string {
+	var b bytes.Buffer
+	left := body
+	for len(left) > 0 {
+		k := 1 + tp.Draw(minInt(len(left), 60), "chunk")
+		fmt.Fprintf(&b, "%x\r\n%s\r\n", k, left[:k])
+		left = left[k:]
+	}
+	b.WriteString("0\r\n")
+	if trailer {
+		b.WriteString("X-Trailer: t\r\n")
+	}
+	b.WriteString("\r\n")
+	return b.String()
+}
+
+func genC24Req(tp *simrt.Tape, id int, hostile bool) c24req {
+	target := fmt.Sprintf("/q%d?x=%d", id, tp.Draw(9, "q"))
+	body := c24body(tp, []int{0, 7, 120}[tp.Draw(3, "body.class")])
+	hdr := fmt.Sprintf("Host: h.example\r\nX-Id: %d\r\n", id)
+	if tp.Chance(1, 3, "extra_hdr") {
+		hdr += "Accept: */*\r\nX-Multi: a\r\nX-Multi: b\r\nX-Ows:   padded value \t\r\n"
+	}
+	shape := 0
+	if hostile {
+		shape = 1 + tp.Draw(16, "shape")
+	} else {
+		shape = -tp.Draw(5, "valid_shape")
+	}
+	w := func(format string, a ...interface{}) c24req {
+		return c24req{wire: []byte(fmt.Sprintf(format, a...))}
+	}
+	var r c24req
+	switch shape {
+	case 0:
+		r = w("GET %s HTTP/1.1\r\n%s\r\n", target, hdr)
+		r.shape = "GET"
+	case -1:
+		r = w("POST %s HTTP/1.1\r\n%sContent-Length: %d\r\n\r\n%s", target, hdr, len(body), body)
+		r.shape = "POST content-length"
+	case -2:
+		r = w("POST %s HTTP/1.1\r\n%sTransfer-Encoding: chunked\r\n\r\n%s", target, hdr, chunkedWire(tp, body, tp.Chance(1, 3, "trailer")))
+		r.shape = "POST chunked"
+	case -3:
+		r = w("HEAD %s HTTP/1.1\r\n%s\r\n", target, hdr)
+		r.shape = "HEAD"
+	case -4:
+		r = w("PUT %s HTTP/1.1\r\n%sContent-Length: %d\r\nContent-Length: %d\r\n\r\n%s", target, hdr, len(body), len(body), body)
+		r.shape = "PUT duplicate identical content-length"
+	case 1:
+		r = w("POST %s HTTP/1.1\r\n%sContent-Length: %d\r\nContent-Length: %d\r\n\r\n%s", target, hdr, len(body), len(body)+3, body)
+		r.shape = "conflicting content-length headers"
+	case 2:
+		r = w("POST %s HTTP/1.1\r\n%sContent-Length: %d, %d\r\n\r\n%s", target, hdr, len(body), len(body)+1, body)
+		r.shape = "conflicting content-length list"
+	case 3:
+		r = w("POST %s HTTP/1.1\r\n%sContent-Length : %d\r\n\r\n%s", target, hdr, len(body), body)
+		r.shape = "space before colon (content-length)"
+	case 4:
+		r = w("POST %s HTTP/1.1\r\n%sTransfer-Encoding : chunked\r\n\r\n%s", target, hdr, chunkedWire(tp, body, false))
+		r.shape = "space before colon (transfer-encoding)"
+	case 5:
+		r = w("POST %s HTTP/1.1\r\n%sTransfer-Encoding: gzip\r\n\r\n%s", target, hdr, body)
+		r.shape = "transfer-encoding gzip only"
+	case 6:
+		r = w("POST %s HTTP/1.1\r\n%sTransfer-Encoding: chunked, gzip\r\n\r\n%s", target, hdr, chunkedWire(tp, body, false))
+		r.shape = "transfer-encoding chunked not last"
+	case 7:
+		r = w("POST %s HTTP/1.1\r\n%sTransfer-Encoding: identity, chunked\r\nContent-Length: 0\r\n\r\n%s", target, hdr, chunkedWire(tp, body, false))
+		r.shape = "transfer-encoding identity, chunked with content-length 0"
+	case 8:
+		r = w("POST %s HTTP/1.1\r\n%sTransfer-Encoding: xchunked\r\nContent-Length: %d\r\n\r\n%s", target, hdr, len(body), body)
+		r.shape = "transfer-encoding xchunked with content-length"
+	case 9:
+		r = w("POST %s HTTP/1.1\r\n%sTransfer-Encoding: identity\r\nTransfer-Encoding: chunked\r\n\r\n%s", target, hdr, chunkedWire(tp, body, false))
+		r.shape = "two transfer-encoding lines: identity then chunked"
+	case 10:
+		r = w("GET %s HTTP/1.1\r\n%sX Bad Name: 1\r\n\r\n", target, hdr)
+		r.shape = "space inside field name"
+	case 11:
+		r = w("GET %s HTTP/1.1\r\n%sX(Bad): 1\r\n\r\n", target, hdr)
+		r.shape = "delimiter in field name"
+	case 12:
+		r = w("GET %s HTTP/1.1\r\n%sX-N\x00ul: 1\r\n\r\n", target, hdr)
+		r.shape = "NUL in field name"
+	case 13:
+		r = w("POST %s HTTP/1.1\r\n%sContent-Length: +%d\r\n\r\n%s", target, hdr, len(body), body)
+		r.shape = "content-length with plus sign"
+	case 14:
+		r = w("POST %s HTTP/1.1\r\n%sContent-Length: 0x%x\r\n\r\n%s", target, hdr, len(body), body)
+		r.shape = "content-length hexadecimal"
+	case 15:
+		r = w("POST %s HTTP/1.1\r\n%sContent-Length: %d\r\nTransfer-Encoding: chunked\r\n\r\n%s", target, hdr, len(body)+2, chunkedWire(tp, body, false))
+		r.shape = "content-length and transfer-encoding chunked (TE overrides)"
+	case 16:
+		r = w("POST %s HTTP/1.1\r\n%sTransfer-Encoding: Chunked\r\n\r\n%s", target, hdr, chunkedWire(tp, body, false))
+		r.shape = "transfer-encoding Chunked (case)"
+	default:
+		// (a line with an empty field name, ": v", is dropped by the MIME reader: it is neither
+		// used nor forwarded, so it is not a reinterpretation and is not generated here)
+		r = w("GET %s HTTP/1.1\r\n%s\r\n", target, hdr)
+		r.shape = "GET"
+	}
+	return r
+}
+
+type bfeReq struct {
+	method, target string
+	fields         []string // lower(name)+": "+value, sorted
+	body           []byte
+}
+
+func normFields(fs []href.Field) []string {
+	var r []string
+	for _, f := range fs {
+		n := strings.ToLower(f.Name)
+		if n == "content-length" || n == "transfer-encoding" || n == "host" {
+			continue // framing fields are consumed / Host is moved by the parser
+		}
+		r = append(r, n+": "+f.Value)
+	}
+	sort.Strings(r)
+	return r
+}
+
+// C24: every request BFE accepts on a byte stream has the boundaries, field
+// names and body an RFC 7230 reference parser assigns; requests such a parser
+// must reject are rejected, not reinterpreted. The stream reaches ReadRequest in
+// seeded segments.
+func runC24(s *simrt.Sim) {
+	tp := s.Tape
+	nofault := simrt.Mode() == "nofault"
+	nreq := tp.Range(1, 4, "n_requests")
+	var wire []byte
+	var shapes []string
+	for i := 0; i < nreq; i++ {
+		r := genC24Req(tp, i, !nofault && tp.Chance(1, 2, "hostile"))
+		wire = append(wire, r.wire...)
+		shapes = append(shapes, r.shape)
+	}
+	seg := 0
+	if !nofault {
+		seg = []int{0, 2, 6}[tp.Draw(3, "seg")]
+	}
+	// reference: parse the stream request by request
+	type refRes struct {
+		m   *href.Message
+		err error
+	}
+	var ref []refRes
+	rest := wire
+	for len(rest) > 0 {
+		m, n, err := href.ParseRequest(rest)
+		if err != nil {
+			ref = append(ref, refRes{nil, err})
+			break
+		}
+		ref = append(ref, refRes{m, nil})
+		rest = rest[n:]
+	}
+	// BFE: the way conn.serve reads a connection
+	src := simio.NewReader(s, wire, seg)
+	br := bfe_bufio.NewReaderSize(src, []int{64, 4096}[tp.Draw(2, "bufio")])
+	var got []bfeReq
+	var gotErr error
+	for i := 0; i < 8; i++ {
+		req, err := ReadRequest(br, 8192)
+		if err != nil {
+			gotErr = err
+			break
+		}
+		body, berr := ioutil.ReadAll(req.Body)
+		req.Body.Close()
+		if berr != nil {
+			gotErr = fmt.Errorf("body: %v", berr)
+			break
+		}
+		var fs []href.Field
+		for _, k := range req.HeaderKeys {
+			_ = k
+		}
+		for name, vals := range req.Header {
+			for _, v := range vals {
+				fs = append(fs, href.Field{Name: name, Value: v})
+			}
+		}
+		got = append(got, bfeReq{req.Method, req.RequestURI, normFields(fs), body})
+	}
+	s.Checked(1)
+	s.Note("op", fmt.Sprintf("shapes=%v seg=%d -> ref %d requests (last err %v), bfe %d requests (err %v)", shapes, seg, len(ref), func() error { if len(ref) == 0 { return nil }; return ref[len(ref)-1].err }(), len(got), gotErr))
+	s.Sample = map[string]interface{}{"shapes": shapes, "seg": seg, "bytes": len(wire)}
+	for i, g := range got {
+		if i >= len(ref) {
+			s.FailK("C24.boundaries", "extra-request-accepted", "BFE accepted %d requests, the reference finds %d in the stream; extra: %s %s; shapes %v", len(got), len(ref), g.method, g.target, shapes)
+			return
+		}
+		if ref[i].err != nil {
+			if ref[i].err == href.ErrIncomplete {
+				s.FailK("C24.boundaries", "incomplete-request-accepted", "request #%d is incomplete in the stream but BFE accepted %s %s (body %d bytes); shapes %v", i, g.method, g.target, len(g.body), shapes)
+				return
+			}
+			s.FailK("C24.reject", "must-reject-accepted:"+shapes[minInt(i, len(shapes)-1)], "request #%d (%s) must be rejected (%v) but BFE accepted it as %s %s with a %d-byte body", i, shapes[minInt(i, len(shapes)-1)], ref[i].err, g.method, g.target, len(g.body))
+			return
+		}
+		m := ref[i].m
+		if g.method != m.Method || g.target != m.Target {
+			s.FailK("C24.boundaries", "request-line-differs", "request #%d: BFE read %s %s, the reference %s %s (framing out of step); shapes %v", i, g.method, g.target, m.Method, m.Target, shapes)
+			return
+		}
+		if !bytes.Equal(g.body, m.Body) {
+			s.FailK("C24.body", "body-differs:"+shapes[minInt(i, len(shapes)-1)], "request #%d (%s): BFE body %d bytes, reference %d bytes", i, shapes[minInt(i, len(shapes)-1)], len(g.body), len(m.Body))
+			return
+		}
+		rf := normFields(m.Fields)
+		if strings.Join(rf, "\n") != strings.Join(g.fields, "\n") {
+			s.FailK("C24.fields", "fields-differ", "request #%d: BFE fields %q, reference %q", i, g.fields, rf)
+			return
+		}
+	}
+	// everything the reference accepts may also be refused by BFE (stricter is fine), but a
+	// clean stream of valid requests must be read completely
+	allValid := true
+	for _, r := range ref {
+		if r.err != nil {
+			allValid = false
+		}
+	}
+	if allValid && nofault && (len(got) != len(ref) || (gotErr != io.EOF && gotErr != io.ErrUnexpectedEOF && gotErr != nil && !strings.Contains(gotErr.Error(), "EOF"))) {
+		s.FailK("C24.valid", "valid-stream-not-read", "a stream of %d valid requests (%v) was read as %d requests, err=%v", len(ref), shapes, len(got), gotErr)
+		return
+	}
+	if len(got) == len(ref) && allValid {
+		s.Probe("stream_fully_agreed")
+	}
+	if !allValid {
+		s.Probe("hostile_stream")
+	}
+}
+
